@@ -80,6 +80,23 @@ impl Z {
 struct JacOut { rows: usize, cols: usize, store: usize, ent: Vec<Z> }
 struct Obs { calls: Vec<Vec<Z>>, outs: Vec<Vec<Z>>, res: Outcome<JacOut> }
 
+thread_local! {
+    /// re-entrant mode: the closure handed to the library itself calls the library's Jacobian routines (a finite-difference
+    /// Hessian, an inner Newton solve ... are ordinary user code) before it evaluates the map
+    static REENTER: std::cell::Cell<bool> = std::cell::Cell::new(false);
+    static INNER_BAD: std::cell::Cell<u32> = std::cell::Cell::new(0);
+}
+fn inner_library_calls() {
+    if !REENTER.with(|r| r.get()) { return; }
+    let g = |v: Vec64| -> Vec64 { Vector::create(vec![2.0 * v[0] + 3.0 * v[1], v[0] - v[1], 4.0 * v[1]]) };
+    let j = Mat64::jacobian(Vector::create(vec![1.0, 2.0]), &g, 2f64.powi(-10));
+    let ok = j.rows() == 3 && j.cols() == 2 && j[(0, 0)] == 2.0 && j[(0, 1)] == 3.0 && j[(1, 0)] == 1.0 && j[(1, 1)] == -1.0 && j[(2, 0)] == 0.0 && j[(2, 1)] == 4.0;
+    let gc = |v: Vector<Cmplx>| -> Vector<Cmplx> { Vector::create(vec![Cmplx::new(0.0, 2.0) * v[0] + v[1], v[0] - Cmplx::new(3.0, 0.0) * v[1]]) };
+    let jc = Matrix::<Cmplx>::jacobian_cmplx(Vector::create(vec![Cmplx::new(1.0, 1.0), Cmplx::new(0.0, -2.0)]), &gc, 2f64.powi(-10));
+    let okc = jc.rows() == 2 && jc.cols() == 2 && jc[(0, 0)] == Cmplx::new(0.0, 2.0) && jc[(0, 1)] == Cmplx::new(1.0, 0.0) && jc[(1, 0)] == Cmplx::new(1.0, 0.0) && jc[(1, 1)] == Cmplx::new(-3.0, 0.0);
+    if !ok || !okc { INNER_BAD.with(|b| b.set(b.get() + 1)); }
+}
+
 /// Run the real library routine on point `x` with step `delta`; `f` is the map (evaluated by the harness),
 /// every call point and returned value is logged.
 fn drive(ty: Ty, x: &[Z], delta: f64, f: &dyn Fn(&[Z]) -> Vec<Z>) -> Obs {
@@ -87,6 +104,7 @@ fn drive(ty: Ty, x: &[Z], delta: f64, f: &dyn Fn(&[Z]) -> Vec<Z>) -> Obs {
     let res = match ty {
         Ty::R => {
             let clos = |v: Vec64| -> Vec64 {
+                inner_library_calls();
                 let p: Vec<Z> = v.vec.iter().map(|&r| Z::r(r)).collect();
                 let o: Vec<Z> = f(&p).iter().map(|z| Z::r(z.re)).collect();
                 let ret = Vector::create(o.iter().map(|z| z.re).collect::<Vec<f64>>());
@@ -106,6 +124,7 @@ fn drive(ty: Ty, x: &[Z], delta: f64, f: &dyn Fn(&[Z]) -> Vec<Z>) -> Obs {
         }
         Ty::C => {
             let clos = |v: Vector<Cmplx>| -> Vector<Cmplx> {
+                inner_library_calls();
                 let p: Vec<Z> = v.vec.iter().map(|c| Z::new(c.real, c.imag)).collect();
                 let o: Vec<Z> = f(&p);
                 let ret = Vector::create(o.iter().map(|z| Cmplx::new(z.re, z.im)).collect::<Vec<Cmplx>>());
@@ -241,7 +260,12 @@ fn judge_affine_exact(st: &mut Stats, ty: Ty, class: &str, a: &AffInt, k: u32) {
         (0..m).map(|i| { let mut s = cf[i]; for j in 0..n.min(p.len()) { s = s.add(mf[i * n + j].mul(p[j])); } s }).collect()
     };
     let desc = || format!("T={} class={} m={} n={} delta=2^-{} map x->Mx+c with M(row-major)={:?} c={:?} x={:?}", ty.name(), class, m, n, k, mf, cf, x);
+    let reenter = (k as usize + m + n) % 7 == 0;
+    REENTER.with(|r| r.set(reenter)); INNER_BAD.with(|b| b.set(0));
     let obs = drive(ty, &x, delta, &f);
+    REENTER.with(|r| r.set(false));
+    if reenter { st.count("reentrant-closure-cases"); if INNER_BAD.with(|b| b.get()) > 0 { st.violation(&format!("C18:{}:{}:reentrant-inner-call-wrong", ty.site(), ty.name()), format!("a Jacobian computed INSIDE the closure of an outer Jacobian call came out wrong; {}", desc())); } }
+    let desc = || format!("{}{}", desc(), if reenter { " [closure re-enters jacobian / jacobian_cmplx]" } else { "" });
     st.eval();
     st.count(&format!("cases:{}:affine-exact", ty.name()));
     st.set_insert(&format!("shapes:{}:affine-exact", ty.name()), format!("{}x{}", m, n));
